@@ -612,6 +612,14 @@ class Parser(ExprParser):
                 if (chk.declarator is None and
                     chk.specifier == ["void"]):
                     node.params = []
+            for chk in node.params:
+                # A parameter of type void (not a pointer) is only the
+                # (void) above.
+                if chk.specifier == ["void"] and not chk.is_indirect() \
+                   and not chk.is_function_pointer():
+                    self.error_msg(
+                        "A parameter cannot have type void: '{}'"
+                        .format(chk.name or "void"))
 
             #  method const
             if self.token.typ == "TYPE_QUALIFIER":
